@@ -22,6 +22,9 @@ CUT = dict(remove_bodies=["hwloc_internal_cpukinds_rank", "hwloc__cpukind_add_in
            goto_instrument=[["--generate-function-body", "hwloc_internal_cpukinds_rank|hwloc__cpukind_add_infos"]])
 add("register_public", "h_register_public", {"RANK_STUB": 1}, ["hwloc_cpukinds_register"] + REG, {"quick": T(2, 6), "thorough": T(3, 8)}, **CUT)
 add("restrict", "h_restrict", {"RANK_STUB": 1, "KIND_MEMMOVE": 1, "VP_CUSTOM_MEMMOVE": 1}, ["hwloc_internal_cpukinds_restrict", "hwloc_bitmap_and", "hwloc_get_obj_by_depth"], {"quick": T(2, 6), "thorough": T(3, 8)}, **CUT)
+add("restrict_rank", "h_restrict_rank", {"KIND_MEMMOVE": 1, "VP_CUSTOM_MEMMOVE": 1, "RESTRICT_COPY": 1}, ["hwloc_internal_cpukinds_restrict (body copied from the working tree)", "hwloc_bitmap_and", "hwloc_get_obj_by_depth"],
+    {"quick": T(2, 3, bounds="any RANKED table of <= 2 kinds over a 3-PU universe (efficiencies all unknown or 0..n-1), any root cpuset; restrict against the contract of rank (decided by the rank harness)"), "thorough": T(3, 8, bounds="as quick with <= 3 kinds over 8 PUs")},
+    gen=[("restrict.inc", "hwloc/cpukinds.c", ["hwloc_internal_cpukinds_restrict"], "__vp")], **CUT)
 add("rank", "h_rank", {}, RANK + ["atoi (model)"], {"quick": T(2, 2, 28), "thorough": T(3, 3, 28)})
 add("query", "h_query", {}, ["hwloc_cpukinds_get_nr", "hwloc_cpukinds_get_info", "hwloc_cpukinds_get_by_cpuset", "hwloc_bitmap_compare_inclusion", "hwloc_bitmap_copy"], {"quick": T(2, 6), "thorough": T(3, 8)})
 for gn in (0, 4):
@@ -30,4 +33,9 @@ for gn in (0, 4):
     HARNESSES[-1]["tiers"]["thorough"] = HARNESSES[-1]["tiers"]["quick"]
     if gn == 4:      # growth from a 4-entry table: no verdict in 20 min (symbolic target index into the grown table): stretch
         HARNESSES[-1]["tiers"] = {"thorough": dict(HARNESSES[-1]["tiers"]["quick"], timeout=1200)}; HARNESSES[-1]["core"] = False; HARNESSES[-1]["mem_gb"] = 8
-OUTSIDE = ["multi-word or infinite kind cpusets", "dup / XML round trip of the table (C12, C05)", "string ownership of info pairs", "allocation failure"]
+# the XML round trip of the table is decided by the element-tree harness of C05 (same source, same query)
+import importlib.util as _iu, os as _os
+_s = _iu.spec_from_file_location("spec_C05", _os.path.join(_os.path.dirname(__file__), "C05.py")); _m = _iu.module_from_spec(_s); _s.loader.exec_module(_m)
+for _h in _m.HARNESSES:
+    if _h["name"] == "xml_roundtrip_cpukinds": _h2 = dict(_h); _h2["name"] = "C05_" + _h["name"]; HARNESSES.append(_h2)
+OUTSIDE = ["multi-word or infinite kind cpusets", "dup of the table (C12)", "string ownership of info pairs", "allocation failure"]
